@@ -1,4 +1,6 @@
 (* C03 — the setters whose write-through is refuted today (one line each; mirrored in findings.d/C03.json, key = name).
+   "Class.attribute" = the setter defined in Class, for every concrete class that inherits it;
+   "Class.attribute@kind" = the same restricted to classes of one kind (object|group|concatenator|data|type|other).
    Not an allow-list that can grow silently: Properties/C03.v proves that every name here has a machine-checked loss
    witness in the table extracted from the current source (a repaired setter makes [C03_listed_exact] fail), and the
    oracle replays each on the real code.  When a fixes/C03-<name>.patch is applied to the repository, delete the line. *)
@@ -28,5 +30,13 @@ Definition C03_listed : list string := [
   "ColorMap.name";                          (* a ColorMap has no way to reach the file *)
   "ColorMap.values";
   "ReferenceValueMap.map";
-  "ReferenceValueMap.__setitem__"
+  "ReferenceValueMap.__setitem__";
+  (* the persistence call re-fetches the blob under the *new* file name, finds nothing, deletes the name and returns *)
+  "FilenameData.file_name";
+  (* write_data_values wraps every dictionary written for a CommentsData into {"Comments": ...} *)
+  "Entity.metadata@CommentsData";
+  "Entity.coordinate_reference_system@CommentsData";
+  (* the datasets of a Concatenator (drillhole group) are written under "Concatenated Data", where no reader looks *)
+  "Entity.metadata@concatenator";
+  "Entity.coordinate_reference_system@concatenator"
 ].
